@@ -4,6 +4,7 @@
 // every finite interval must close a birth index that is open in that dimension, every open index must be reported as infinite, and an insertion-only
 // sequence must reproduce the pairing of an independent boundary-matrix reduction (ordinary persistence).
 #include "vp.h"
+#include <limits>
 #include <gudhi/zigzag_persistence.h>
 #include <gudhi/filtered_zigzag_persistence.h>
 #include <vector>
@@ -69,6 +70,11 @@ static void rf_step(RF& R, int hf, int ht, const unsigned* img, bool forward, in
 }
 #endif
 struct Bar { int dim, b, d; };
+#ifdef VP_PREFIX_K4T
+#define DVFORK(step) ((step) < 5 ? 1 : vp_fork_int(vp_int("dv", 0, 1)))   /* distinct values for the first prefix cells, solver-chosen ties afterwards */
+#else
+#define DVFORK(step) vp_fork_int(vp_int("dv", 0, 1))
+#endif
 extern "C" void harness() {
   std::vector<Bar> fin;   // finite intervals as streamed
   Gudhi::zigzag_persistence::Zigzag_persistence<> zp([&](int dim, int b, int d) { fin.push_back(Bar{dim, b, d}); });
@@ -76,6 +82,8 @@ extern "C" void harness() {
   std::vector<Bar> ffin; std::vector<double> fb, fd;
   Gudhi::zigzag_persistence::Filtered_zigzag_persistence<> fzp([&](int dim, double b, double d) { ffin.push_back(Bar{dim, 0, 0}); fb.push_back(b); fd.push_back(d); });
   int val = 0; int fval[K + 1];
+  // second front-end: the storing variant, with a solver-chosen ignoreCyclesAboveDim (-1 = nothing ignored)
+  int ign = vp_fork_int(vp_int("ignore", -1, 1)); Gudhi::zigzag_persistence::Filtered_zigzag_persistence_with_storage<> fzs(0, ign);
 #endif
   bool present[NS]; int key[NS]; for (int m = 0; m < NS; m++) { present[m] = false; key[m] = -1; }
   bool openb[NV][K + 1]; for (int d = 0; d < NV; d++) for (int i = 0; i <= K; i++) openb[d][i] = false;
@@ -89,6 +97,9 @@ extern "C" void harness() {
     // graph zigzag: the vertices enter first (concrete arrows), then every arrow inserts or removes an edge
     int kind = step < NV ? 0 : vp_fork_int(vp_int("arrow", 0, 1)); int cd = -1; int arrow = -1; int m_pre = step < NV ? (1 << step) : 0;
     if (step >= NV) { static int edges[NV * (NV - 1) / 2]; int ne = 0; for (int a = 0; a < NV; a++) for (int c = a + 1; c < NV; c++) edges[ne++] = 1 << a | 1 << c; m_pre = edges[vp_fork_int(vp_int("edge", 0, ne - 1))]; }
+#elif defined(VP_PREFIX_K4T)
+    // fixed start (concrete arrows): four vertices and the boundary of the triangle {0,1,2}; every later arrow is chosen by the solver
+    static const int pre[7] = {1, 2, 4, 8, 3, 5, 6}; int kind = step < 7 ? 0 : vp_fork_int(vp_int("arrow", 0, 2)); int cd = -1; int arrow = -1; int m_pre = step < 7 ? pre[step] : 0;
 #else
     int kind = vp_fork_int(vp_int("arrow", 0, 2)); int cd = -1; int arrow = -1; int m_pre = 0;
 #endif
@@ -96,18 +107,20 @@ extern "C" void harness() {
       for (size_t a = 0; a < bd.size(); a++) for (size_t c = a + 1; c < bd.size(); c++) if (bd[c] < bd[a]) { int t = bd[a]; bd[a] = bd[c]; bd[c] = t; }
       arrow = key[m] = (int)zp.insert_cell(bd, pcnt(m) - 1); present[m] = true; cd = pcnt(m) - 1; order[norder++] = m;
 #ifdef VP_FILTERED
-      val += vp_fork_int(vp_int("dv", 0, 1)); fzp.insert_cell(m, [&]{ std::vector<int> ids; for (int s = 1; s < NS; s++) if ((s & m) == s && pcnt(s) == pcnt(m) - 1) ids.push_back(s); return ids; }(), pcnt(m) - 1, (double)val);
+      val += DVFORK(step); fzp.insert_cell(m, [&]{ std::vector<int> ids; for (int s = 1; s < NS; s++) if ((s & m) == s && pcnt(s) == pcnt(m) - 1) ids.push_back(s); return ids; }(), pcnt(m) - 1, (double)val);
+      { int a2 = (int)fzs.insert_cell(m, [&]{ std::vector<int> ids; for (int s = 1; s < NS; s++) if ((s & m) == s && pcnt(s) == pcnt(m) - 1) ids.push_back(s); return ids; }(), pcnt(m) - 1, (double)val); vp_assert(a2 == step, "storing front-end: operations are numbered consecutively (skipped cells count as identities)"); }
 #endif
       vp_reach("insert"); }
     else if (kind == 1) { int m = m_pre ? m_pre : vp_fork_int(vp_int("mask", 1, NS - 1)); vp_assume(present[m]); for (int s = 1; s < NS; s++) if (s != m && (s & m) == m) vp_assume(!present[s]);
       arrow = (int)zp.remove_cell(key[m]); present[m] = false; cd = pcnt(m) - 1; insert_only = false;
 #ifdef VP_FILTERED
-      val += vp_fork_int(vp_int("dv", 0, 1)); fzp.remove_cell(m, (double)val);
+      val += DVFORK(step); fzp.remove_cell(m, (double)val);
+      { int a2 = (int)fzs.remove_cell(m, (double)val); vp_assert(a2 == step, "storing front-end: operations are numbered consecutively (skipped cells count as identities)"); }
 #endif
       vp_reach("remove"); }
     else { arrow = (int)zp.apply_identity(); insert_only = false;
 #ifdef VP_FILTERED
-      fzp.apply_identity();
+      fzp.apply_identity(); fzs.apply_identity();
 #endif
       vp_reach("identity"); }
     vp_assert(arrow == step, "operations are numbered consecutively from 0");
@@ -156,6 +169,15 @@ extern "C" void harness() {
     int expn = 0; for (auto& x : fin) if (fval[x.b] != fval[x.d]) expn++; vp_assert((int)ffin.size() == expn, "filtered front-end: same finite intervals minus the zero-length ones");
     std::vector<bool> used(ffin.size(), false);
     for (auto& x : fin) if (fval[x.b] != fval[x.d]) { bool found = false; for (size_t i = 0; i < ffin.size(); i++) if (!used[i] && ffin[i].dim == x.dim && fb[i] == (double)fval[x.b] && fd[i] == (double)fval[x.d]) { used[i] = true; found = true; break; } vp_assert(found, "filtered front-end: interval translated to the supplied filtration values"); } }
+  { // the storing front-end: index diagram = the finite intervals of the dimensions below ignoreCyclesAboveDim; value diagram = their translation (zero-length omitted) + the open ones
+    auto keep = [&](int dim) { return ign == -1 || dim < ign; };
+    const auto& idx = fzs.get_index_persistence_diagram(); int expi = 0; for (auto& x : fin) if (keep(x.dim)) expi++;
+    vp_assert((int)idx.size() == expi, "storing front-end: index diagram = finite intervals of the non-ignored dimensions"); { std::vector<bool> used(idx.size(), false);
+      for (auto& x : fin) if (keep(x.dim)) { bool found = false; for (size_t i = 0; i < idx.size(); i++) if (!used[i] && (int)idx[i].dim == x.dim && (int)idx[i].birth == x.b && (int)idx[i].death == x.d) { used[i] = true; found = true; break; } vp_assert(found, "storing front-end: index interval"); } }
+    auto diag = fzs.get_persistence_diagram(0., true); int expv = 0; for (auto& x : fin) if (keep(x.dim) && fval[x.b] != fval[x.d]) expv++; for (int d = 0; d < NV; d++) for (int i = 0; i < K; i++) if (openb[d][i] && keep(d)) expv++;
+    vp_assert((int)diag.size() == expv, "storing front-end: diagram = translated finite intervals minus zero-length ones, plus the open intervals, of the non-ignored dimensions"); std::vector<bool> used(diag.size(), false);
+    for (auto& x : fin) if (keep(x.dim) && fval[x.b] != fval[x.d]) { bool found = false; for (size_t i = 0; i < diag.size(); i++) if (!used[i] && (int)diag[i].dim == x.dim && diag[i].birth == (double)fval[x.b] && diag[i].death == (double)fval[x.d]) { used[i] = true; found = true; break; } vp_assert(found, "storing front-end: interval translated to the supplied filtration values"); }
+    for (int d = 0; d < NV; d++) for (int i = 0; i < K; i++) if (openb[d][i] && keep(d)) { bool found = false; for (size_t j = 0; j < diag.size(); j++) if (!used[j] && (int)diag[j].dim == d && diag[j].birth == (double)fval[i] && diag[j].death == std::numeric_limits<double>::infinity()) { used[j] = true; found = true; break; } vp_assert(found, "storing front-end: open interval translated to the filtration value of its birth"); } }
 #endif
   vp_reach("end");
 }
